@@ -23,7 +23,7 @@ from automata.base.exceptions import AutomatonException
 from harness import enc_misc as E
 from harness import gen_misc as G
 from harness import misc_common as M
-from harness.common import Ctx
+from harness.common import Ctx, guarded
 
 LEVEL = "proof"
 RULE = ("cases = (class, definition, expectation): valid-by-documentation definitions of the 8 classes "
@@ -65,6 +65,7 @@ def case_of(cls, kw, **more):
     return dict(cls=cls, kwargs=repr(kw), **more)
 
 
+@guarded
 def check_validate(ctx: Ctx, cls: str, kw, origin: str, expect: Optional[str], rule: Optional[str] = None,
                    exact_expect: bool = True):
     """expect: "ok" (valid by the documentation), an exception class name (single-rule
@@ -97,6 +98,7 @@ def check_validate(ctx: Ctx, cls: str, kw, origin: str, expect: Optional[str], r
     return impl
 
 
+@guarded
 def check_construct_options(ctx: Ctx, cls: str, kw, origin: str):
     """Constructor under the four option combinations vs. the model's `construct`."""
     enc = E.enc_def(cls, kw)
@@ -156,6 +158,7 @@ def validate_result(ctx, opname, res, replay):
     return True
 
 
+@guarded
 def use_definition(ctx: Ctx, cls: str, kw, rng, origin: str, twin=None, finding: Optional[str] = None):
     """(3), (4), (6) on one accepted definition.  `twin` is the same definition without its
     rows keyed by non-states: every outcome must be the same up to language."""
@@ -258,6 +261,7 @@ def describe(r):
     return "ok " + (type(r[1]).__name__)
 
 
+@guarded
 def options_check(ctx: Ctx, cls: str, kw, rng, origin: str):
     """(5): every operation under the four option combinations, on operands built under the
     same combination from the same definition."""
@@ -388,7 +392,7 @@ def run(ctx: Ctx):
                    "definitions of each of the 8 classes")
 
     # 2. shaped random: valid (with / without rows keyed by non-states), corrupted, options
-    for _ in range(ctx.budget(300, 6000)):
+    for _ in range(ctx.budget(250, 6000)):
         for cls in G.CLASSES:
             junk = cls in G.JUNK_CLASSES and rng.random() < 0.5
             kw = G.rand_def(rng, cls, junk=junk)
@@ -410,7 +414,7 @@ def run(ctx: Ctx):
             if rng.random() < 0.25:
                 check_construct_options(ctx, cls, kw, "valid")
     # 3. accepted definitions are usable, results valid, junk rows irrelevant
-    for _ in range(ctx.budget(90, 2500)):
+    for _ in range(ctx.budget(75, 2500)):
         for cls in G.CLASSES:
             junk = cls in G.JUNK_CLASSES and rng.random() < 0.6
             kw = G.rand_def(rng, cls, junk=junk)
